@@ -586,6 +586,9 @@ func C01(c *ev.Ctx) {
 			break
 		}
 	}
+	nb, nbAcc := c01Boundary(c)
+	c.Set("boundary_constructs_tried", nb)
+	c.Set("boundary_constructs_accepted_and_executed", nbAcc)
 	c.Set("programs", tot.Programs)
 	c.Set("disagreements_checked", tot.Compared)
 	c.Set("go_panicked_discarded", tot.GoPanicked)
@@ -601,4 +604,149 @@ func C01(c *ev.Ctx) {
 	if tot.Broken*5 > tot.Programs+tot.Broken && tot.Programs+tot.Broken > 0 {
 		c.Inconclusive("%d of %d generated packages did not compile: generator defect", tot.Broken, tot.Programs+tot.Broken)
 	}
+}
+
+// c01Boundary: constructs just outside the subset (rejected by the pinned translator). A translator that accepts one
+// of them has made it part of the accepted subset, so its emitted definition must behave like Go.
+func c01Boundary(c *ev.Ctx) (int, int) {
+	var its []goosegen.Item
+	for _, it := range goosegen.Catalogue {
+		if goosegen.RejectedAtPin[it.Key] && !strings.HasPrefix(it.Key, "lookalike.") {
+			its = append(its, it)
+		}
+	}
+	m, err := newGenModule(c, "mod-c01b")
+	if err != nil {
+		c.Inconclusive("module: %v", err)
+		return 0, 0
+	}
+	defer os.RemoveAll(m.dir)
+	type owner struct{ key, entry string }
+	var pkgs []tvPackage
+	own := map[string][]owner{}
+	per := 8
+	n := 5000
+	for p := 0; p*per < len(its); p++ {
+		name := fmt.Sprintf("b%d", p)
+		var sb strings.Builder
+		var body strings.Builder
+		usesMachine := false
+		var entries []goosegen.Entry
+		for _, it := range its[p*per : min(len(its), (p+1)*per)] {
+			n++
+			en := fmt.Sprintf("bentry%d", n)
+			decls, entry := it.Instantiate(n, en)
+			if strings.Contains(decls+entry, "machine.") {
+				usesMachine = true
+			}
+			body.WriteString(decls + "\n" + entry + "\n")
+			entries = append(entries, goosegen.Entry{Name: en, Keys: []string{it.Key}})
+			own[name] = append(own[name], owner{it.Key, en})
+		}
+		sb.WriteString("package gen\n\n")
+		if usesMachine {
+			sb.WriteString("import \"github.com/goose-lang/goose/machine\"\n\n")
+		}
+		sb.WriteString(body.String())
+		pkgs = append(pkgs, tvPackage{Name: name, Source: sb.String(), Entries: entries, Keys: map[string]bool{}})
+	}
+	for _, p := range pkgs {
+		var es []string
+		for _, e := range p.Entries {
+			es = append(es, e.Name)
+		}
+		_ = m.addPackage(p.Name, p.Source, es)
+	}
+	goRes, broken, err := m.runGo()
+	if err != nil {
+		c.Inconclusive("boundary packages: %v", err)
+		return len(its), 0
+	}
+	gout := m.runGoose(c, "-ignore-errors")
+	if gout.exit == 2 || strings.Contains(gout.stderr, "goroutine ") {
+		return len(its), 0 // a crash is judged by C07
+	}
+	errs := errorLines(gout.stderr)
+	var evalPkgs []tvPackage
+	accepted := 0
+	for _, p := range pkgs {
+		if _, b := broken[p.Name]; b {
+			c.Inconclusive("boundary package %s does not compile:\n%s", p.Name, firstLines(broken[p.Name], 8))
+			continue
+		}
+		ds, err := topDecls(p.Source)
+		if err != nil {
+			continue
+		}
+		rejected := map[string]bool{}
+		declOf := map[string]declInfo{}
+		for _, d := range ds {
+			for _, nm := range d.names {
+				declOf[nm] = d
+			}
+			for _, ln := range errs[p.Name] {
+				if ln >= d.start && ln <= d.end {
+					for _, nm := range d.names {
+						rejected[nm] = true
+					}
+				}
+			}
+		}
+		// an item is rejected if any declaration between its first declaration and its entry is
+		lines := strings.Split(p.Source, "\n")
+		_ = lines
+		var keep []goosegen.Entry
+		prevEnd := 0
+		for _, o := range own[p.Name] {
+			end := declOf[o.entry].end
+			rej := false
+			for _, d := range ds {
+				if d.start > prevEnd && d.end <= end {
+					for _, nm := range d.names {
+						if rejected[nm] {
+							rej = true
+						}
+					}
+				}
+			}
+			prevEnd = end
+			if !rej && strings.Contains(gout.files[p.Name], "Definition "+o.entry+":") {
+				keep = append(keep, goosegen.Entry{Name: o.entry, Keys: []string{o.key}})
+				accepted++
+			}
+		}
+		if len(keep) > 0 {
+			evalPkgs = append(evalPkgs, tvPackage{Name: p.Name, Source: p.Source, Entries: keep, Keys: map[string]bool{}})
+		}
+	}
+	if len(evalPkgs) == 0 {
+		return len(its), 0
+	}
+	dis, _, ok := compareEmitted(c, "c01bd", evalPkgs, goRes, gout.files)
+	if !ok {
+		return len(its), accepted
+	}
+	for _, d := range dis {
+		if d.Kind == "unknown-ident" || d.Kind == "no-outcome" {
+			continue
+		}
+		key := ""
+		for _, o := range own[d.Pkg] {
+			if o.entry == d.Entry {
+				key = o.key
+			}
+		}
+		if key == "" {
+			continue // a helper definition that does not parse is reported through its entry (stuck / undefined)
+		}
+		var src string
+		for _, p := range pkgs {
+			if p.Name == d.Pkg {
+				src = p.Source
+			}
+		}
+		c.Report("c01.boundary."+key, fmt.Sprintf("construct %s is now accepted (the pinned translator rejected it), but its emitted definition does not behave like Go: %s: %s\n  Go:    %s\n  model: %s", key, d.Kind, d.Detail, d.GoRes, d.ModelRes),
+			map[string]string{"gen.go": src, "emitted.v": gout.files[d.Pkg], "entry.txt": d.Entry})
+	}
+	return len(its), accepted
 }
